@@ -105,7 +105,62 @@ def named_parameters(run, tier):
     run.hashes.update(sess.repo.hashes)
 
 
+def verify_record_decoding(run, tier):
+    """the words the decoders render come from from_kd_buf: its result and its path conditions mention no host symbol
+    (sys.byteorder, sys.platform, os.name ... are host symbols of the interpreter's model)"""
+    from pyvc.harness import fresh_bytes, model_bytes
+    from pyvc.report import native
+    from pyvc import solve
+    from contracts import kevent as C
+    sess = Session()
+    f = sess.func(C.FUNCTION)
+    ob = 'C18/from_kd_buf/host-independent'
+    holder = {}
+
+    def thunk(ctx):
+        kd = fresh_bytes(ctx, 'kd_buf', 64)
+        r = sess.it.call(f, [kd], {})
+        holder.setdefault('res', []).append((r, list(ctx.full_pc())))
+        return r
+    try:
+        paths = sess.explore(thunk)
+    except Unsupported as ex:
+        run.add(ob, 'unsupported', '', 0, C.FUNCTION, str(ex))
+        run.undecide(ob, 'construct outside the subset: %s' % ex)
+        run.pending_host_search = True
+        return
+    hosts = set()
+    for p in paths:
+        for c in p.pc:
+            hosts.update(n for n in D.sym_names(c) if n.startswith('host.'))
+        r = p.result if hasattr(p, 'result') else None
+    for r, pc in holder.get('res', []):
+        terms = []
+        if isinstance(r, Obj):
+            for v in r.fields.values():
+                for x in (v if isinstance(v, tuple) else (v,)):
+                    if is_intlike(x) and not isinstance(x, int):
+                        terms.append(zi(x))
+                    elif isinstance(x, SBytes):
+                        terms += [zi(e) for e in x.elems if not isinstance(e, int)]
+        for t in terms + pc:
+            hosts.update(n for n in D.sym_names(t) if n.startswith('host.'))
+    if not hosts:
+        run.add(ob, 'proved', 'symbolic execution: no host symbol in the decoded record or its path conditions', 0, C.FUNCTION)
+    else:
+        why = 'the decoded record depends on %s' % ', '.join(sorted(hosts))
+        kd = bytes(range(1, 65))
+        req = {'kind': 'host_call_pair', 'module': 'pykdebugparser.kevent', 'func': 'from_kd_buf', 'args': [{'$b': kd.hex()}],
+               'a': D.HOST_A, 'b': D.HOST_B}
+        out = native(req)
+        run.add(ob, 'refuted', 'symbolic execution', 0, C.FUNCTION, why)
+        run.violation(ob, {'request': req, 'native': out, 'solver_output': why}, bool(out.get('violates')),
+                      what='from_kd_buf: ' + (out.get('what') or why))
+    run.hashes.update(sess.repo.hashes)
+
+
 def run_check(run, tier):
     D.standard(run, tier, 'C18')
     table_lemmas(run, tier)
     named_parameters(run, tier)
+    verify_record_decoding(run, tier)
